@@ -22,6 +22,43 @@ open Woodpile.Raffle Woodpile.VouchedTime
 theorem window_consts : prodCfg.fwdMs = 2990 ∧ prodCfg.backMs = 59900 ∧ prodCfg.params = baseTimeCheck := by
   decide
 
+/-- **The raffle crate's constants** (claim-audit gap 20).  `WANTED_SUM`,
+`CHECKING_TAG`, `VOUCHING_TAG` are re-read on every run from the source of the raffle
+crate that `vouched_time/Cargo.toml` resolves to (cargo registry, offline):
+`Gen.raffle*Name` are the bytes of the ASCII names in `named_u64("…")`,
+`Gen.raffle*` the values the extractor computed from them.  The model's literals
+(`Woodpile.Raffle.wantedSum` …) are those values, and `namedU64` - the model of
+`constparse::named_u64`, little-endian - maps the extracted names to them.
+`Gen.raffle*Shape = 1` records that the extractor found `check` / `vouch` to be
+textually the expressions `Raffle.check` / `Raffle.vouchRaw` transcribe. -/
+theorem raffle_consts :
+    wantedSum.toNat = Woodpile.Gen.raffleWantedSum ∧
+    checkingTag.toNat = Woodpile.Gen.raffleCheckingTag ∧
+    vouchingTag.toNat = Woodpile.Gen.raffleVouchingTag ∧
+    wantedSum = UInt64.ofNat (namedU64 Woodpile.Gen.raffleWantedSumName) ∧
+    checkingTag = UInt64.ofNat (namedU64 Woodpile.Gen.raffleCheckingTagName) ∧
+    vouchingTag = UInt64.ofNat (namedU64 Woodpile.Gen.raffleVouchingTagName) ∧
+    Woodpile.Gen.raffleCheckShape = 1 ∧ Woodpile.Gen.raffleVouchShape = 1 := by
+  decide
+
+/-- The names are what the crate's documentation says: "Vouch!OK", "Checking",
+"Vouching" (ASCII). -/
+theorem raffle_names :
+    Woodpile.Gen.raffleWantedSumName = "Vouch!OK".toList.map Char.toNat ∧
+    Woodpile.Gen.raffleCheckingTagName = "Checking".toList.map Char.toNat ∧
+    Woodpile.Gen.raffleVouchingTagName = "Vouching".toList.map Char.toNat := by
+  decide
+
+/-- **The calendar range.**  `minLocalNs` / `maxLocalNs` (the bounds of `InRange`)
+are `-Y₀-01-01 00:00:00.000000000` and `Y₁-12-31 23:59:59.999999999` for the year
+range `MIN_YEAR ..= MAX_YEAR` re-read from the `time` crate that `vouched_time`
+resolves to (without `large-dates`, as resolved). -/
+theorem local_range_consts :
+    minLocalNs = civilNs (-(Woodpile.Gen.timeMinYearNeg : Int)) 1 1 0 0 0 0 ∧
+    maxLocalNs = civilNs (Woodpile.Gen.timeMaxYear : Int) 12 31 23 59 59 999999999 ∧
+    civilNs 1970 1 1 0 0 0 0 = 0 ∧ civilNs 2000 3 1 0 0 0 0 = 951868800000000000 := by
+  decide
+
 /-- The crate's vouching parameters (nfs_voucher's and AtomicBaseTime's) are
 matched with `BASE_TIME_CHECK`: every value's voucher passes the check, and the
 assertion inside `raffle::vouch` never fires. -/
